@@ -195,6 +195,8 @@ class Contract:
         self.lets = []       # (name, expr text) evaluated at entry
         self.ghost = []
         self.asserts = []
+        self.extern_params = []
+        self.external_below = None
 
     def loop(self, k):
         if k not in self.loops:
@@ -263,6 +265,18 @@ class ContractDB:
             if word == 'func':
                 cur = Contract(pkg, rest, path, ln)
                 self.contracts[(pkg, rest)] = cur
+                curloop = None
+                last = None
+            elif word == 'extern':
+                # assumed contract of a function / interface method outside the module:
+                #   //@ extern invoke:Store.GetBalances(recv, ctx, query)
+                m = re.match(r'^(\S+?)\(([^)]*)\)\s*$', rest)
+                if not m:
+                    raise ParseError('%s:%d: extern needs a parameter list' % (path, ln))
+                cur = Contract('extern', m.group(1), path, ln)
+                cur.flags.add('trusted')
+                cur.extern_params = [x.strip() for x in m.group(2).split(',') if x.strip()]
+                self.contracts[('extern', m.group(1))] = cur
                 curloop = None
                 last = None
             elif word in ('spec', 'view'):
@@ -345,6 +359,9 @@ class ContractDB:
                 else:
                     cur.lets.append(c)
                 last = c
+            elif word == 'external-below':
+                cur.external_below = Clause('external-below', 'external-below', [], rest, path, ln)
+                last = None
             elif word in ('inline', 'trusted', 'pure', 'nosafety', 'safety', 'functional'):
                 cur.flags.add(word)
                 if rest:
